@@ -1026,6 +1026,9 @@ Proof.
 Qed.
 
 (* ------------------------------------------------------------------ non-vacuity of the premises *)
+Ltac idx_compute := cbv [keep_weights drop_weights enumerate length seq combine map in_index existsb pyidx Z.ltb Z.compare
+  Z.add Z.of_nat Pos.of_succ_nat Pos.succ Z.pos_sub Z.to_nat Pos.to_nat Pos.iter_op Nat.add Nat.eqb fst snd orb Rsum
+  fold_right zero NumR Z.opp Pos.compare Pos.compare_cont Z.succ_double Z.double Z.pred_double Pos.pred_double].
 Lemma data_premises :
   let x := [-1; 2; 5] in let w := [1; 0; 3] in
   wf x (Some w) /\ wf x None /\ Rsum (keep_weights NumR (Some [0; -1]%Z) w) <> 0 /\
@@ -1034,9 +1037,9 @@ Proof.
   cbv zeta. repeat split.
   - simpl. lra.
   - simpl. lra.
-  - simpl. lra.
-  - simpl. lra.
-  - unfold CM, Mu, dotR, wsum. simpl.
-    replace (1 + (0 + (3 + 0))) with 4 by lra. intros H.
-    assert (E : forall a, a / 4 = a * (1 / 4)) by (intros; lra). rewrite !E in H. lra.
+  - idx_compute. lra.
+  - idx_compute. lra.
+  - assert (E : CM 2 [-1; 2; 5] [1; 0; 3] = 27 / 4).
+    { unfold CM, Mu, dotR, wsum; cbn [combine map fst snd Rsum fold_right pow]. field. }
+    rewrite E. lra.
 Qed.
